@@ -48,14 +48,14 @@ func (s Sort) String() string {
 }
 
 type Term struct {
-	id   int
-	op   string // "var", "const", or SMT operator (possibly indexed, e.g. "(_ extract 7 0)")
-	args []*Term
-	sort Sort
-	name string // var
-	val  uint64 // const: BV value (masked), Bool 0/1, FP: IEEE bits
-	size int    // DAG size estimate
-	ctree bool  // ite-tree whose leaves are all constants (or a constant)
+	id    int
+	op    string // "var", "const", or SMT operator (possibly indexed, e.g. "(_ extract 7 0)")
+	args  []*Term
+	sort  Sort
+	name  string // var
+	val   uint64 // const: BV value (masked), Bool 0/1, FP: IEEE bits
+	size  int    // DAG size estimate
+	ctree bool   // ite-tree whose leaves are all constants (or a constant)
 }
 
 func (t *Term) isConst() bool { return t.op == "const" }
